@@ -744,7 +744,13 @@ pub fn analyse(
     if violation.is_none() {
         for (i, tx) in txs.iter().enumerate() {
             // the run continues for a tail after the script, so everything transmitted has been processed
-            if tx.must_accept && (tx.is_read_response || tx.uns) && tx.delivered != tx.values {
+            // (automatic retries can keep the traffic going until the history ends: a fragment still on its way then is not judged)
+            let arrived = tx.t + case.latency.0 + case.latency.1 + 10 < run.end_ms;
+            if tx.must_accept
+                && (tx.is_read_response || tx.uns)
+                && tx.delivered != tx.values
+                && (arrived || !tx.delivered.is_empty())
+            {
                 let kind = if tx.delivered.is_empty() {
                     "not-delivered"
                 } else if tx.delivered.len() > tx.values.len() {
